@@ -288,6 +288,13 @@ func visitedGuard(fn *ssa.Function, call ssa.Instruction) (string, bool) {
 				return "membership test on set " + mkey + " (extended before the call)", true
 			}
 		}
+		// (d) set.enter(k) — a helper of the package that tests and inserts in one step
+		// (a visited set behind a named map type): we are on its true edge
+		if c, ok := cond.(*ssa.Call); ok && takenTrue {
+			if h := c.Call.StaticCallee(); h != nil && isTestAndInsert(h) {
+				return "test-and-insert helper " + h.Name() + " (the element is inserted on the edge taken)", true
+			}
+		}
 		// (c) contains(slice, x) — false edge, slice appended before the call
 		if c, ok := cond.(*ssa.Call); ok && !takenTrue {
 			cc, _ := ssax.AsCall(c)
@@ -307,6 +314,49 @@ func visitedGuard(fn *ssa.Function, call ssa.Instruction) (string, bool) {
 		}
 	}
 	return "", false
+}
+
+// isTestAndInsert: h(set, key) bool on a map-typed first parameter that looks the
+// key up and, where it was absent, inserts it and returns true.
+func isTestAndInsert(h *ssa.Function) bool {
+	if len(h.Params) < 2 || len(h.Blocks) == 0 || h.Signature.Results().Len() != 1 {
+		return false
+	}
+	if _, isMap := h.Params[0].Type().Underlying().(*types.Map); !isMap {
+		return false
+	}
+	if b, ok := h.Signature.Results().At(0).Type().Underlying().(*types.Basic); !ok || b.Kind() != types.Bool {
+		return false
+	}
+	look, ins := false, false
+	ssax.Instrs(h, func(in ssa.Instruction) {
+		switch x := in.(type) {
+		case *ssa.Lookup:
+			if ssax.Strip(x.X) == ssa.Value(h.Params[0]) {
+				look = true
+			}
+		case *ssa.MapUpdate:
+			if ssax.Strip(x.Map) == ssa.Value(h.Params[0]) {
+				ins = true
+			}
+		}
+	})
+	return look && ins
+}
+
+// isRemover: h(set, key) on a map-typed first parameter whose every path deletes the key.
+func isRemover(h *ssa.Function) bool {
+	if len(h.Params) < 2 || len(h.Blocks) == 0 {
+		return false
+	}
+	if _, isMap := h.Params[0].Type().Underlying().(*types.Map); !isMap {
+		return false
+	}
+	isDel := func(x ssa.Instruction) bool {
+		c, ok := ssax.AsCall(x)
+		return ok && c.FullName() == "builtin.delete" && ssax.Strip(c.Common.Args[0]) == ssa.Value(h.Params[0])
+	}
+	return len(ssax.CallsTo(h, "builtin.delete")) > 0 && ssax.PathFrom(h, nil, ssax.IsReturn, isDel) == nil
 }
 
 // C11 — the compiler is total.
@@ -592,6 +642,53 @@ func C11(ctx *core.Ctx) {
 			iff, ok := in.(*ssa.If)
 			if !ok {
 				return
+			}
+			// the visited set behind a named type: `if !path.enter(k) { return true }` …
+			// `defer path.leave(k)`
+			{
+				cond, neg := iff.Cond, false
+				if u, isU := cond.(*ssa.UnOp); isU && u.Op == token.NOT {
+					cond, neg = u.X, true
+				}
+				if call, isCall := cond.(*ssa.Call); isCall {
+					if h := call.Call.StaticCallee(); h != nil && isTestAndInsert(h) && len(call.Call.Args) >= 2 {
+						if _, isParam := ssax.Strip(call.Call.Args[0]).(*ssa.Parameter); isParam {
+							hit := iff.Block().Succs[1] // enter(...) == false: already on the path
+							if neg {
+								hit = iff.Block().Succs[0]
+							}
+							reports := false
+							for ret, vs := range ReturnedValues(fn) {
+								if ret.Block() != hit {
+									continue
+								}
+								for _, v := range vs {
+									if c, isC := ssax.Strip(v).(*ssa.Const); isC && c.Value != nil && c.Value.String() == "true" {
+										reports = true
+									}
+								}
+							}
+							if reports {
+								mkey := ssax.AddrKey(call.Call.Args[0])
+								isDel := func(x ssa.Instruction) bool {
+									c, isC := ssax.AsCall(x)
+									if !isC || c.Static == nil || !isRemover(c.Static) || len(c.Common.Args) < 2 {
+										return false
+									}
+									return ssax.AddrKey(c.Common.Args[0]) == mkey && ssax.AddrKey(c.Common.Args[1]) == ssax.AddrKey(call.Call.Args[1])
+								}
+								bad := ssax.PathFrom(fn, call, ssax.IsReturn, func(x ssa.Instruction) bool { return isDel(x) || x.Block() == hit })
+								construct := QName(fn) + " › cycle search over " + mkey + " removes the element on every exit"
+								if bad == nil {
+									ctx.Discharge("C11.R5", construct, cc.IPos(call), "the remover helper (deferred or explicit) precedes every return after "+h.Name())
+								} else {
+									ctx.Violate("C11.R5", construct, cc.IPos(call), "the set of elements on the current path is never shrunk: a declaration that mentions the same alias twice (a DAG, e.g. map<Id, Id>) is reported as a cycle and valid IDL is rejected", ssax.PathString(cc.V.Fset, bad)...)
+								}
+								return
+							}
+						}
+					}
+				}
 			}
 			lk, ok := iff.Cond.(*ssa.Lookup)
 			if !ok {
